@@ -56,8 +56,17 @@ theorem memoCall_ok_cases (env : Env) (m : Nat) (key : Int) (s s' : State) (n : 
       · rw [he] at hrun; cases hrun
         exact .inr ⟨rfl, s1, s2, u, rfl, he, rfl⟩
 
-theorem F0V.memoStart (m : Nat) (key : Int) (s : State) : F0V s (memoStart m key s) :=
-  F0V.of_eq rfl rfl rfl rfl rfl rfl
+theorem F0V.memoStart (m : Nat) (key : Int) (s : State) : F0V s (memoStart m key s) where
+  nodesLe := Nat.le_refl _
+  core _ _ := rfl
+  memos := rfl
+  top := rfl
+  handles := rfl
+  obs _ := rfl
+  reg h := h
+  log := ⟨[memoNote m key], rfl⟩
+  valid _ _ := rfl
+  newValid i hi1 hi2 := absurd hi2 (by show ¬ i < s.nodes.size; omega)
 
 theorem ms_memoCall {env : Env} (hok : MemoBodyOK env) (m : Nat) (key : Int) :
     Pres (MS env) (memoCall env m key) := by
